@@ -50,6 +50,14 @@ func (e Ev) String() string {
 func (e Ev) Short() string {
 	switch e.K {
 	case N:
+		// values that print as an address (channels, functions, pointers) would make the rendering
+		// differ from run to run: name their type instead
+		if e.V != nil {
+			switch reflect.TypeOf(e.V).Kind() {
+			case reflect.Chan, reflect.Func, reflect.Ptr, reflect.UnsafePointer:
+				return "<" + reflect.TypeOf(e.V).String() + ">"
+			}
+		}
 		return fmt.Sprintf("%v", e.V)
 	case E:
 		return "E"
